@@ -20,12 +20,12 @@ import (
 // the part that was already written must not reach a receiver as a message.
 func TestC01Deadline(t *testing.T) {
 	const sub = "C01.deadline_during_tell"
-	ev.Rule(sub, "rapid: stacks whose top or middle layer streams or fragments a payload over time (QUIC, fragmenting, message-box, P2PKE over memory/UDP bases), two nodes, 3-12 tells of 20 KB-1 MB (capped by MTU) from 1-4 goroutines with context deadlines of 0-30 ms (so that many end mid-payload) mixed with tells that have time to finish. Oracle (ledger): every payload a receiver is handed is byte-for-byte a payload that was told to it - never a truncation, concatenation or mixture - whatever the Tell returned. non-trivial = at least one Tell ended by its deadline; distinct by (spec, sizes, deadlines)")
+	ev.Rule(sub, "rapid: stacks whose top or middle layer streams or fragments a payload over time (QUIC, fragmenting, message-box, P2PKE over memory/UDP bases), two nodes, 3-12 tells of 20 KB-2 MB (capped by MTU; QUIC layers with the default and with a 2 MiB MTU) from 1-4 goroutines with context deadlines of 0-30 ms (so that many end mid-payload) mixed with tells that have time to finish. Oracle (ledger): every payload a receiver is handed is byte-for-byte a payload that was told to it - never a truncation, concatenation or mixture - whatever the Tell returned. non-trivial = at least one Tell ended by its deadline; distinct by (spec, sizes, deadlines)")
 	rapid.Check(t, func(t *rapid.T) {
 		var spec stack.Spec
 		switch rapid.IntRange(0, 3).Draw(t, "shape") {
 		case 0, 1:
-			spec = stack.Spec{Base: rapid.SampledFrom([]string{"mem", "udp"}).Draw(t, "base"), BaseMTU: 1500, QueueLen: 256, Layers: []stack.Layer{{Kind: "quic"}}}
+			spec = stack.Spec{Base: rapid.SampledFrom([]string{"mem", "udp"}).Draw(t, "base"), BaseMTU: 1500, QueueLen: 256, Layers: []stack.Layer{{Kind: "quic", MTU: rapid.SampledFrom([]int{0, 0, 2 << 20}).Draw(t, "quicMTU")}}}
 		case 2:
 			spec = stack.Spec{Base: "mem", BaseMTU: 1500, QueueLen: 256, Layers: []stack.Layer{{Kind: "p2pke"}, {Kind: "quic"}}}
 		default:
@@ -72,7 +72,7 @@ func TestC01Deadline(t *testing.T) {
 		var plans []plan
 		var ds []string
 		for i := 0; i < n; i++ {
-			size := rapid.SampledFrom([]int{20000, 65536, 200000, 1 << 20}).Draw(t, "size")
+			size := rapid.SampledFrom([]int{20000, 65536, 200000, 1 << 20, 1<<20 + 4096, 2 << 20}).Draw(t, "size")
 			size = min(size, mtu)
 			if size < 32 {
 				size = 32
